@@ -93,39 +93,6 @@ Proof. intros Rm t H. destruct_tuples. autounfold with smgen. unfold SE2, t2r2, 
 Example C01_embed_nonvacuous : SO3 (rotx_cs Rops (3/5) (4/5)) /\ SO2 (rot2_cs Rops (3/5) (4/5)).
 Proof. split; [apply SO3_rotx | apply SO2_rot2]; lra. Qed.
 
-(* ---------- the class constructors build exactly the base values (so they inherit membership) ---------- *)
-Lemma C01_SO3_Rxyz : forall a,
-  SO3 (tr_SO3_Rx_rad Rops a) /\ SO3 (tr_SO3_Rx_deg Rops a) /\ SO3 (tr_SO3_Ry_rad Rops a) /\ SO3 (tr_SO3_Ry_deg Rops a) /\
-  SO3 (tr_SO3_Rz_rad Rops a) /\ SO3 (tr_SO3_Rz_deg Rops a).
-Proof. conjs; so_tr. Qed.
-Lemma C01_SE3_Rxyz : forall a t,
-  SE3 (tr_SE3_Rx_rad Rops a t) /\ SE3 (tr_SE3_Rx_deg Rops a t) /\ SE3 (tr_SE3_Ry_rad Rops a t) /\ SE3 (tr_SE3_Ry_deg Rops a t) /\
-  SE3 (tr_SE3_Rz_rad Rops a t) /\ SE3 (tr_SE3_Rz_deg Rops a t).
-Proof. conjs; se_tr. Qed.
-Lemma C01_SO3_RPY : forall a,
-  SO3 (tr_SO3_RPY_zyx_rad Rops a) /\ SO3 (tr_SO3_RPY_zyx_deg Rops a) /\ SO3 (tr_SO3_RPY_xyz_rad Rops a) /\
-  SO3 (tr_SO3_RPY_xyz_deg Rops a) /\ SO3 (tr_SO3_RPY_yxz_rad Rops a) /\ SO3 (tr_SO3_RPY_yxz_deg Rops a).
-Proof. conjs; so_tr. Qed.
-Lemma C01_SE3_RPY : forall a,
-  SE3 (tr_SE3_RPY_zyx_rad Rops a) /\ SE3 (tr_SE3_RPY_zyx_deg Rops a) /\ SE3 (tr_SE3_RPY_xyz_rad Rops a) /\
-  SE3 (tr_SE3_RPY_xyz_deg Rops a) /\ SE3 (tr_SE3_RPY_yxz_rad Rops a) /\ SE3 (tr_SE3_RPY_yxz_deg Rops a).
-Proof. conjs; se_tr. Qed.
-Lemma C01_SO3_SE3_Eul : forall a,
-  SO3 (tr_SO3_Eul_rad Rops a) /\ SO3 (tr_SO3_Eul_deg Rops a) /\ SE3 (tr_SE3_Eul_rad Rops a) /\ SE3 (tr_SE3_Eul_deg Rops a).
-Proof. conjs; first [ so_tr | se_tr ]. Qed.
-Lemma C01_SE3_T : forall d x y z t,
-  SE3 (tr_SE3_Tx Rops d) /\ SE3 (tr_SE3_Ty Rops d) /\ SE3 (tr_SE3_Tz Rops d) /\ SE3 (tr_SE3_xyz Rops x y z) /\ SE3 (tr_SE3_vec Rops t).
-Proof. conjs; se_tr. Qed.
-Lemma C01_SO2_SE2 : forall a x y,
-  SO2 (tr_SO2_rad Rops a) /\ SO2 (tr_SO2_deg Rops a) /\ SE2 (tr_SE2_rad Rops x y a) /\ SE2 (tr_SE2_deg Rops x y a) /\ SE2 (tr_SE2_xy Rops x y).
-Proof. conjs; first [ so_tr | se_tr ]. Qed.
-
-(* the option really is threaded: the degree trace is the radian trace at the scaled angle (pi_f/180 as the exact double ratio) *)
-Lemma C01_deg_is_scaled_rad : forall a,
-  tr_rotx_deg Rops a = tr_rotx_rad Rops (IZR 5030569068109113 / IZR 288230376151711744 * a) /\
-  tr_SO3_Rz_deg Rops a = tr_SO3_Rz_rad Rops (IZR 5030569068109113 / IZR 288230376151711744 * a).
-Proof. intros; split; autounfold with smgen; sm_simpl; reflexivity. Qed.
-
 (* =====================  PROPERTY THEOREMS  ===================== *)
 (* every base axis-rotation / translation constructor, both units, any angle, any translation *)
 Theorem C01_base_axis_constructors : forall (a : R) (t3 : V3 R) (t2 : V2 R) (p : V3 R) (x y z : R),
@@ -193,28 +160,3 @@ Proof.
 Qed.
 Print Assumptions C01_base_q2r_embeddings.
 
-(* every polynomial class constructor of SO2 / SE2 / SO3 / SE3 *)
-Theorem C01_class_constructors : forall (a : R) (t : V3 R) (a3 : V3 R) (d x y z : R),
-  (SO3 (tr_SO3_Rx_rad Rops a) /\ SO3 (tr_SO3_Rx_deg Rops a) /\ SO3 (tr_SO3_Ry_rad Rops a) /\ SO3 (tr_SO3_Ry_deg Rops a) /\
-   SO3 (tr_SO3_Rz_rad Rops a) /\ SO3 (tr_SO3_Rz_deg Rops a)) /\
-  (SE3 (tr_SE3_Rx_rad Rops a t) /\ SE3 (tr_SE3_Rx_deg Rops a t) /\ SE3 (tr_SE3_Ry_rad Rops a t) /\ SE3 (tr_SE3_Ry_deg Rops a t) /\
-   SE3 (tr_SE3_Rz_rad Rops a t) /\ SE3 (tr_SE3_Rz_deg Rops a t)) /\
-  (SO3 (tr_SO3_RPY_zyx_rad Rops a3) /\ SO3 (tr_SO3_RPY_zyx_deg Rops a3) /\ SO3 (tr_SO3_RPY_xyz_rad Rops a3) /\
-   SO3 (tr_SO3_RPY_xyz_deg Rops a3) /\ SO3 (tr_SO3_RPY_yxz_rad Rops a3) /\ SO3 (tr_SO3_RPY_yxz_deg Rops a3)) /\
-  (SE3 (tr_SE3_RPY_zyx_rad Rops a3) /\ SE3 (tr_SE3_RPY_zyx_deg Rops a3) /\ SE3 (tr_SE3_RPY_xyz_rad Rops a3) /\
-   SE3 (tr_SE3_RPY_xyz_deg Rops a3) /\ SE3 (tr_SE3_RPY_yxz_rad Rops a3) /\ SE3 (tr_SE3_RPY_yxz_deg Rops a3)) /\
-  (SO3 (tr_SO3_Eul_rad Rops a3) /\ SO3 (tr_SO3_Eul_deg Rops a3) /\ SE3 (tr_SE3_Eul_rad Rops a3) /\ SE3 (tr_SE3_Eul_deg Rops a3)) /\
-  (SE3 (tr_SE3_Tx Rops d) /\ SE3 (tr_SE3_Ty Rops d) /\ SE3 (tr_SE3_Tz Rops d) /\ SE3 (tr_SE3_xyz Rops x y z) /\ SE3 (tr_SE3_vec Rops t)) /\
-  (SO2 (tr_SO2_rad Rops a) /\ SO2 (tr_SO2_deg Rops a) /\ SE2 (tr_SE2_rad Rops x y a) /\ SE2 (tr_SE2_deg Rops x y a) /\ SE2 (tr_SE2_xy Rops x y)).
-Proof.
-  intros.
-  pose proof (C01_SO3_Rxyz a).
-  pose proof (C01_SE3_Rxyz a t).
-  pose proof (C01_SO3_RPY a3).
-  pose proof (C01_SE3_RPY a3).
-  pose proof (C01_SO3_SE3_Eul a3).
-  pose proof (C01_SE3_T d x y z t).
-  pose proof (C01_SO2_SE2 a x y).
-  tauto.
-Qed.
-Print Assumptions C01_class_constructors.
